@@ -25,7 +25,7 @@ from pbt.harness import Task, ok, violation, discard, xt_call
 PID = "C02"
 RULE = ("n 1..6, ncols 1..3, target batch rank 0..2 with independent sub-patterns for A,B,E,M; f64/c128; spectra {spd, indef, few_spd, "
         "normal_rhp, general, few_normal} cond<=10; operator kinds of C01 (leaf classes with/without rmv/mm, sums, differences, "
-        "scalings, products, adjoints, jac) built on derived tensors; optional listed-but-unused operator parameter; E mode "
+        "scalings, products, adjoints, jac) built on derived tensors, user-class leaves optionally non-linear in their own parameter (matrix = Mat*exp(s), extra leaf s); optional listed-but-unused operator parameter; E mode "
         "{none, E, E+M, M only}; forward method x backward options {default, exactsolve, cg, bicgstab, gmres}; which leaves require "
         "grad; first and second order (create_graph). Non-trivial = n>=2, nothing warned and the reference gradient w.r.t. the "
         "matrix leaf (or, if it does not require grad, any leaf) is non-zero; distinct by (method, bck, E mode, kind, dtype, spectrum, "
@@ -107,19 +107,29 @@ def run_case(case):
         kind = "mv_rmv"
     batchclass = "b%d%d%d%d" % (len(case["bA"]), len(case["bB"]), len(case["bE"]) if PE is not None else 0, len(case["bM"]) if PM is not None else 0)
     labels = ["method=" + method, "bck=" + bck, "emode=" + em, "kind=" + kind, "dtype=" + case["dtype"], "spec=" + case["spec"],
-              "batch=" + batchclass, "order=%d" % case["order"], "zero=" + case["zero"], "extra=%s" % case["extra"]]
+              "batch=" + batchclass, "order=%d" % case["order"], "zero=" + case["zero"], "extra=%s" % case["extra"], "nonlin=%s" % (bool(case.get("nonlin")) and case["kind"] in R.METHODSETS)]
     if not leaves:
         return discard("nothing_requires_grad", labels)
 
     counter = {}
-    Aop = xt_call(R.make_operator, kind, A, herm and case["hflag"], g, counter, case["leaf"], _where="construct")
+    nonlin = bool(case.get("nonlin")) and kind in R.METHODSETS
+    if nonlin:
+        # operator non-linear in its own scalar parameter: matrix = A * exp(s); s real so that Hermitian stays Hermitian
+        PS = torch.tensor(0.1, dtype=torch.float64, requires_grad=True)
+        Aop = xt_call(R.make_nonlin_leaf, kind, A, PS, herm and case["hflag"], counter, _where="construct")
+        A = A * torch.exp(PS)
+        leaves.append(PS)
+        names.append("S")
+    else:
+        Aop = xt_call(R.make_operator, kind, A, herm and case["hflag"], g, counter, case["leaf"], _where="construct")
     extra = None
     if case["extra"] and kind in ("mv", "mv_rmv", "mv_mm", "all"):
         # a parameter the operator lists but never uses
         extra = torch.full((2,), 0.5, dtype=dt, requires_grad=True)
         Aop.extra = extra
         cls = type(Aop)
-        cls._getparamnames = lambda self, prefix="": [prefix + "Mat", prefix + "extra"]
+        _old = cls._getparamnames
+        cls._getparamnames = lambda self, prefix="": _old(self, prefix) + [prefix + "extra"]
     Mop = None
     if M is not None:
         Mop = xt_call(R.make_leaf, case["mkind"], M, True, counter, _where="construct")
@@ -144,7 +154,7 @@ def run_case(case):
         else:       # legitimate only if no leaf influences X (judged against the reference below)
             got = [None] * len(wrt)
         got2 = None
-        C = [gen.randn(g, t.shape, dt) for t in leaves]
+        C = [gen.randn(g, t.shape, t.dtype) for t in leaves]
         if second:
             terms = [rdot(c, gk) for c, gk in zip(C, got) if gk is not None and gk.requires_grad]
             if terms:
@@ -237,7 +247,7 @@ def case_st(draw, tier="quick"):
         "mkind": draw(st.sampled_from(["dense", "mv", "all"])), "hflag": draw(st.sampled_from([True, True, False])),
         "method": method, "bck": bck, "emode": draw(st.sampled_from(["none", "E", "E", "EM", "EM", "EM", "M"])),
         "ecomplex": draw(st.booleans()), "req": req, "order": draw(st.sampled_from([1, 1, 2])),
-        "zero": draw(st.sampled_from(["none"] * 6 + ["some", "all"])), "extra": draw(st.sampled_from([False, False, True])),
+        "zero": draw(st.sampled_from(["none"] * 6 + ["some", "all"])), "extra": draw(st.sampled_from([False, False, True])), "nonlin": draw(st.sampled_from([False, True])),
         "seed": draw(st.integers(0, 2 ** 31 - 1)),
     }
 
